@@ -27,7 +27,7 @@ ASSUMPTIONS = [
     'strings are sequences of Unicode code points without U+0000 and without lone surrogates (sqlite3 refuses NUL in statement text)',
     'format / pyformat drivers apply Python %-formatting to the statement whenever an argument object is supplied; Pony supplies one (tuple or dict) '
     'for every statement built by SQLBuilder',
-    'date / time / interval / Decimal / float literals are outside the theorems (covered only by C07); int and bool literals are checked by correspondence only',
+    'floats that are not integer-valued, Decimal in E-notation / negative zero, SQLite timedelta literals that are not whole days are outside the theorems (correspondence / search only)',
     'MySQL and PostgreSQL servers are not available: MySQL literal rules and the identifier-with-% finding are judged under documentation models',
 ]
 RULE = ('adversarial strings built from atoms (quotes, doubled quotes, backslash, %, %%, _, !, placeholder look-alikes, $, non-ASCII, newline) alone, in pairs '
@@ -913,6 +913,16 @@ def search(ctx, deep):
             f = ident_fmt_case(prov, name)
             if f: fail(f)
             elif classes(name) != 'plain': nontriv.add(('ident_fmt', prov, name))
+    # (g) literals other than str / bytes: real class -> %-step -> an independent reader of the dialect's literal form
+    import datetime as _dt
+    for prov in PROVIDERS:
+        own = {'sqlite': 'qmark', 'postgres': 'pyformat', 'mysql': 'format', 'oracle': 'named'}[prov]
+        for kind, v, _ in lit_values(ctx):
+            if kind == 'timedelta_days' and prov != 'sqlite': continue
+            evals += 1; count('literal_other_kinds')
+            f = literal_case(prov, own, kind, v)
+            if f: fail(f)
+            else: nontriv.add(('literal', prov, kind, repr(v)))
     subjects = [s for s in strs if len(s) <= 4][:60]
     for v in [s for s in strs if s][:(40 if not deep else 200)]:
         for prov in ('postgres', 'mysql'):
@@ -933,8 +943,10 @@ def ident_case(name):
         E = type('E', (db.Entity,), {'_table_': 't ' + name, 'val': orm.Optional(str, column='c ' + name), 'w': orm.Optional(int, column=name)})
         db.generate_mapping(create_tables=True)
         with orm.db_session:
-            E(val='v1', w=3); orm.commit()
-            got = orm.select((e.val, e.w) for e in E if e.w == 3)[:]
+            x = E(val='v0', w=2); orm.commit()
+            x.val = 'v1'; x.w = 3; orm.commit()                       # UPDATE ... SET <names> ... WHERE <pk>
+            y = E(val='gone', w=9); orm.commit(); y.delete(); orm.commit()   # DELETE
+            got = orm.select((e.val, e.w) for e in E)[:]
             con = db.get_connection()
             tables = [r[0] for r in con.execute("SELECT name FROM sqlite_master WHERE type = 'table'").fetchall()]
             cols = [r[1] for r in con.execute('PRAGMA table_info(%s)' % ('"' + ('t ' + name).replace('"', '""') + '"')).fetchall()]
@@ -971,6 +983,80 @@ def ident_fmt_case(prov, name):
                    {'kind': 'ident_fmt', 'provider': prov, 'name': name})
 
 
+def read_literal(prov, kind, text):
+    """an independent reader of the literal forms (Python re / datetime / decimal), for the search oracle; raises ValueError when the text is not of the form"""
+    import datetime, decimal
+    def need(m):
+        if m is None: raise ValueError('not a %s literal of %s: %r' % (kind, prov, text))
+        return m
+    if kind == 'none': need(re.fullmatch('null', text)); return None
+    if kind == 'bool':
+        tbl = {'true': True, 'false': False} if prov == 'postgres' else {'1': True, '0': False}
+        if text not in tbl: raise ValueError('not a boolean literal of %s: %r' % (prov, text))
+        return tbl[text]
+    if kind == 'int': need(re.fullmatch(r'-?\d+', text)); return int(text)
+    if kind == 'floatint': need(re.fullmatch(r'-?\d+\.\d+', text)); return float(text)
+    if kind == 'decimal': need(re.fullmatch(r'-?\d+(\.\d+)?(E[+-]\d+)?', text)); return decimal.Decimal(text)
+    if kind == 'date':
+        m = need(re.fullmatch(r"'(\d{4})-(\d{2})-(\d{2})'" if prov == 'sqlite' else r"DATE '(\d{4})-(\d{2})-(\d{2})'", text))
+        return datetime.date(*map(int, m.groups()))
+    if kind == 'datetime':
+        pat = r"'(\d{4})-(\d{2})-(\d{2}) (\d{2}):(\d{2}):(\d{2})\.(\d{6})'"
+        m = need(re.fullmatch(pat if prov == 'sqlite' else 'TIMESTAMP ' + pat, text))
+        return datetime.datetime(*map(int, m.groups()))
+    if kind in ('timedelta', 'timedelta_days'):
+        if prov == 'sqlite':
+            need(re.fullmatch(r'-?\d+(\.\d+)?(e-?\d+)?', text))
+            return datetime.timedelta(days=float(text))
+        m = need(re.fullmatch(r"INTERVAL '(-?)(\d+):(\d+):(\d+)(?:\.(\d{6}))?' (HOUR TO SECOND|HOUR_SECOND|HOUR_MICROSECOND)", text))
+        sign, h, mi, sec, frac, unit = m.groups()
+        want_unit = ('HOUR_MICROSECOND' if frac else 'HOUR_SECOND') if prov == 'mysql' else 'HOUR TO SECOND'
+        if unit != want_unit: raise ValueError('interval unit %s does not fit the text %r' % (unit, text))
+        td = datetime.timedelta(hours=int(h), minutes=int(mi), seconds=int(sec), microseconds=int(frac or 0))
+        return -td if sign else td
+    raise ValueError(kind)
+
+
+def literal_case(prov, style, kind, v):
+    """real Value class -> driver %-step -> independent reader; -> Failure or None"""
+    import datetime
+    try:
+        text = str(value_class(prov)(style, v))
+        sent = text
+        if style in ('format', 'pyformat'):
+            sent = py_fmt_subst(text)
+            if sent is None: raise ValueError('the driver %%-step fails on %r' % text)
+        got = read_literal(prov, kind, sent)
+        if isinstance(v, datetime.timedelta) and prov == 'sqlite': ok = abs((got - v).total_seconds()) < 1e-5
+        else: ok = got == v and type(got) is type(v)
+    except Exception as e:
+        text, got, ok = locals().get('text', '?'), 'EXC %s: %s' % (type(e).__name__, e), False
+    if ok: return None
+    return Failure('unlisted:literal:%s:%s' % (prov, kind), '%s, paramstyle %s: the %s value %r is rendered as %s, which reads as %r' % (prov, style, kind, v, text, got),
+                   {'kind': 'literal', 'provider': prov, 'style': style, 'lkind': kind, 'value': enc_value(v)})
+
+
+def enc_value(v):
+    import datetime, decimal
+    if v is None: return ['none']
+    if isinstance(v, bool): return ['bool', v]
+    if isinstance(v, datetime.datetime): return ['datetime', v.isoformat()]
+    if isinstance(v, datetime.date): return ['date', v.isoformat()]
+    if isinstance(v, datetime.timedelta): return ['timedelta', v.days, v.seconds, v.microseconds]
+    if isinstance(v, decimal.Decimal): return ['decimal', str(v)]
+    return [type(v).__name__, v]
+
+def dec_value(e):
+    import datetime, decimal
+    k = e[0]
+    if k == 'none': return None
+    if k == 'datetime': return datetime.datetime.fromisoformat(e[1])
+    if k == 'date': return datetime.date.fromisoformat(e[1])
+    if k == 'timedelta': return datetime.timedelta(days=e[1], seconds=e[2], microseconds=e[3])
+    if k == 'decimal': return decimal.Decimal(e[1])
+    return {'int': int, 'float': float, 'bool': bool}[k](e[1])
+
+
 def like_bs_case(prov, op, v, subjects):
     """real translator on a PostgreSQL / MySQL mock; the LIKE condition is judged with the documented default escape
     character (backslash) when Pony emits no ESCAPE clause"""
@@ -990,6 +1076,7 @@ def like_bs_case(prov, op, v, subjects):
 def replay(ctx, data):
     kind = data.get('kind')
     if kind == 'like_bs': return like_bs_case(data['provider'], data['op'], data['v'], ['', 'a', 'ab'])
+    if kind == 'literal': return literal_case(data['provider'], data['style'], data['lkind'], dec_value(data['value']))
     if kind == 'e2e':
         populate(data['style'], strings(ctx, 0)[:70] + [data['v'], data['v'] + 'x', 'x' + data['v'], 'a' + data['v'] + 'b'])
         got, want, sql = e2e_query(data['style'], data['op'], data['const'], data['v'])
@@ -1030,17 +1117,22 @@ def replay(ctx, data):
     raise ValueError('unknown replay payload %r' % (data,))
 
 
-LEVEL_TEXT = ('Machine-checked proof (Coq 8.16.1), for all strings: the literal Pony writes (quote_str, all five paramstyles, incl. the %% doubling for '
-              'format/pyformat and the driver\'s %-step) is read back exactly by a standard SQL lexer, alone and in context; quoted identifiers and dotted names '
-              'round-trip for every quote character; the LIKE conditions built for `in` / startswith / endswith (constant and parameter branch) are true '
-              'exactly for infix / prefix / suffix; for every paramstyle and every occurrence list with repeated keys each placeholder is bound to the value '
-              'of its own paramkey; X\'..\' blob literals round-trip. The string functions are re-translated from /repo on every run; the numbering/adapter '
-              'model is hand-written and compared with the real SQLBuilder. MySQL literals (backslash) and identifiers containing % under format styles are '
-              'refuted by witnesses under documentation models and proved on the exact complement.')
-LEVEL_NOTE = ('Trusted: Coq kernel + vm_compute; py2coq translator; correspondence harness (placeholder tokeniser); the receiving-side models '
-              '(SQL literal/identifier lexer and LIKE validated against the linked SQLite; %-formatting validated against CPython; MySQL literal rules and PEP 249 '
-              'binding from documentation). Not covered by theorems: date/time/interval/Decimal/float literals, int/bool/None literals (table check only), '
-              'a full SQL tokeniser for the "no structure change" clause (proved as literal/identifier-in-context lemmas instead).')
+LEVEL_TEXT = ('Machine-checked proof (Coq 8.16.1), for all inputs: (1) every literal form Value.__str__ and SQLiteValue/MySQLValue/PGValue write reads back as the '
+              'value supplied, under all five paramstyles incl. the driver\'s %-step: strings (all code points), bytes, None, bool, unbounded int, integer-valued '
+              'float, Decimal in plain notation, DATE / TIMESTAMP / INTERVAL literals (MySQL units, SQLite plain texts and whole-day timedeltas), alone and in '
+              'context; (2) quoted identifiers and dotted names round-trip; (3) LIKE conditions for in / startswith / endswith are true exactly for infix / prefix / '
+              'suffix; (4) every placeholder is bound to the value of its own paramkey for every paramstyle and occurrence list; (5) with a tokeniser, the '
+              'token-class sequence of the INSERT / UPDATE / DELETE / SELECT-by-key skeletons does not depend on the names and values plugged in; (6) a value '
+              'rendered inline from a Python variable (string index / slice bound, getattr name) is the current run\'s value over every history of re-executions. '
+              'All rendering functions are re-translated from /repo on every run; numbering/adapters and skeleton texts are compared with the real SQLBuilder. '
+              'MySQL backslash literals, identifiers containing % under format styles and constant LIKE patterns with backslash are refuted by witnesses under '
+              'documentation models and proved on the exact complement.')
+LEVEL_NOTE = ('Trusted: Coq kernel + vm_compute; py2coq translators; correspondence harness; the receiving-side models (SQL literal/identifier lexer and LIKE validated '
+              'against the linked SQLite; %-formatting validated against CPython; numeric / DATE / TIMESTAMP / INTERVAL literal readers, MySQL literal rules and PEP 249 '
+              'binding from documentation); the C07 builder\'s reference models of isoformat / timedelta2str / timestamp parsing (compared with CPython in C07). '
+              'Excluded: floats that are not integer-valued (repr of a binary float is not modelled; inf / nan are not SQL literals), Decimal in E-notation and the '
+              'negative zero, SQLite timedelta literals that are not whole days (float division), statements other than the four skeletons for the tokeniser theorem '
+              '(general queries: in-context lemmas only).')
 TECHNIQUE = ('Coq proof by induction over strings / occurrence lists on a model regenerated from source by py2coq; vm_compute correspondence with the real '
              'classes (5 paramstyles x 4 providers); reference semantics validated against SQLite/CPython; end-to-end differential search on SQLite under '
              'all five paramstyles through a driver shim')
